@@ -180,6 +180,13 @@ pub struct Graph {
     pub var_store: bool,
     /// additionally a COLR v0 BaseGlyph record for glyph 1: (first layer, layer count, layer records)
     pub v0: Option<(u16, u16, u16)>,
+    /// VarIndexMap (DeltaSetIndexMap format 0): (map count, entry size in bytes 1..=4, inner bit count 1..=16);
+    /// entry i addresses (outer 0, inner i mod 2^inner_bits)
+    pub var_map: Option<(u16, u8, u8)>,
+    /// with `var_store`: the ItemVariationStore has no regions (rows of zero columns)
+    pub store_empty: bool,
+    /// with `clip`: the clip box is a variable one (ClipBox format 2, varIndexBase 0)
+    pub clip_var: bool,
 }
 
 impl Graph {
@@ -190,6 +197,9 @@ impl Graph {
             "clip": self.clip,
             "var_store": self.var_store,
             "v0": self.v0.map(|(a, b, c)| vec![a, b, c]),
+            "var_map": self.var_map.map(|(a, b, c)| vec![a as u32, b as u32, c as u32]),
+            "store_empty": self.store_empty,
+            "clip_var": self.clip_var,
         })
     }
     pub fn from_json(v: &Value) -> Option<Graph> {
@@ -199,6 +209,9 @@ impl Graph {
             clip: v["clip"].as_bool().unwrap_or(false),
             var_store: v["var_store"].as_bool().unwrap_or(false),
             v0: v["v0"].as_array().map(|a| (a[0].as_u64().unwrap_or(0) as u16, a[1].as_u64().unwrap_or(0) as u16, a[2].as_u64().unwrap_or(0) as u16)),
+            var_map: v["var_map"].as_array().map(|a| (a[0].as_u64().unwrap_or(0) as u16, a[1].as_u64().unwrap_or(1) as u8, a[2].as_u64().unwrap_or(1) as u8)),
+            store_empty: v["store_empty"].as_bool().unwrap_or(false),
+            clip_var: v["clip_var"].as_bool().unwrap_or(false),
         })
     }
     pub fn nodes(&self) -> usize {
@@ -375,19 +388,35 @@ pub fn build_colr(g: &Graph) -> Colr {
         let clips = vec![Clip::new(
             GlyphId16::new(1),
             GlyphId16::new(g.bases.len().max(1) as u16),
-            ClipBox::format_1(fw(0), fw(0), fw(500), fw(500)),
+            if g.clip_var { ClipBox::format_2(fw(0), fw(0), fw(500), fw(500), 0) } else { ClipBox::format_1(fw(0), fw(0), fw(500), fw(500)) },
         )];
         colr.clip_list = Some(ClipList::new(1, clips.len() as u32, clips)).into();
     }
     if g.var_store {
-        let mut b = VariationStoreBuilder::new_with_implicit_indices(1);
-        let region = VariationRegion::new(vec![RegionAxisCoordinates::new(f2(0.0), f2(1.0), f2(1.0))]);
-        // enough delta sets for the largest var_index_base + field count used above
-        for i in 0..12i32 {
-            b.add_deltas(vec![(region.clone(), (i * 37) % 200 - 100)]);
+        if g.store_empty {
+            use write_fonts::tables::variations::{ItemVariationData, ItemVariationStore, VariationRegionList};
+            let store = ItemVariationStore::new(VariationRegionList::new(1, vec![]), vec![Some(ItemVariationData::new(12, 0, vec![], vec![]))]);
+            colr.item_variation_store = Some(store).into();
+        } else {
+            let mut b = VariationStoreBuilder::new_with_implicit_indices(1);
+            let region = VariationRegion::new(vec![RegionAxisCoordinates::new(f2(0.0), f2(1.0), f2(1.0))]);
+            // enough delta sets for the largest var_index_base + field count used above
+            for i in 0..12i32 {
+                b.add_deltas(vec![(region.clone(), (i * 37) % 200 - 100)]);
+            }
+            let (store, _) = b.build();
+            colr.item_variation_store = Some(store).into();
         }
-        let (store, _) = b.build();
-        colr.item_variation_store = Some(store).into();
+    }
+    if let Some((count, entry_size, inner_bits)) = g.var_map {
+        use write_fonts::tables::variations::DeltaSetIndexMap;
+        let fmt = read_fonts::tables::variations::EntryFormat::from_bits_truncate(((entry_size - 1) << 4) | (inner_bits - 1));
+        let mut data = vec![];
+        for i in 0..count as u32 {
+            let inner = i & ((1u32 << inner_bits) - 1).min(0xFFFF);
+            data.extend_from_slice(&inner.to_be_bytes()[4 - entry_size as usize..]);
+        }
+        colr.var_index_map = Some(DeltaSetIndexMap::format_0(fmt, count, data)).into();
     }
     colr
 }
